@@ -7,7 +7,7 @@ from . import g01util as u
 GROUP = "g01"
 PROP_FILE = "C18.v"
 OWN_FILES = ("Tables.v", "Via.v", "ViaCheck.v", "ViaProofs.v", "Ob18.v", "C18.v",
-             "ReqPipeline.v", "ReqCheck.v", "ReqE2E.v", "ReqProofs.v", "RouteProofs.v", "TransportTac.v",
+             "ReqPipeline.v", "ReqCheck.v", "ReqE2E.v", "ReqProofs.v", "RouteProofs.v", "RouteOracle.v", "TransportTac.v",
              "TransportProofs.v", "TransportProofs2.v", "E2EProofs.v", "Ob01.v")
 
 
